@@ -26,7 +26,7 @@ FAMS = ("qp", "oscillating", "sinus", "exp_wall", "qp_quartic", "quantized", "of
 
 
 def floors(tier):
-    return {"calls": 2500, "multi_trial_calls": 500, "returned_none": 40, "points_checked": 6000, "step_at_max": 100, "calls_with_a_nan_trial_value": 80, "calls_with_an_optimisation_nested_in_the_objective": 150, "__nontrivial__": 500}
+    return {"calls": 2500, "multi_trial_calls": 500, "returned_none": 40, "points_checked": 6000, "step_at_max": 100, "calls_with_a_nan_trial_value": 80, "calls_with_an_optimisation_nested_in_the_objective": 150, "calls_with_single_precision_point": 150, "__nontrivial__": 500}
 
 
 def make_objective(rng, fam, n):
@@ -204,7 +204,22 @@ def run(spec):
                 log.append(("g", xr, v))
                 return v
 
-            sf = prepare_scalar_function(fun, x0.copy(), jac=jac if mode == "callable" else "2-point", args=(), epsilon=1e-8,
+            x0_arg = x0.copy()
+            if j % 5 == 2 and mode == "callable":
+                # a caller of the line-search layer holding its point in single precision (rounded towards the inside of the box);
+                # the direction is recomputed from that point so that the max feasible step is the same for judge and routine
+                x32 = x0.astype(np.float32)
+                inf32 = np.array(np.inf, dtype=np.float32)
+                x32 = np.where(x32 < lb, np.nextafter(x32, inf32), x32)
+                x32 = np.where(x32 > ub, np.nextafter(x32, -inf32), x32).astype(np.float32)
+                if probes.in_box(x32.astype(float), lb, ub):
+                    x0 = x32.astype(float)
+                    gq = g(x0.copy())
+                    tq = float(np.exp(rng.uniform(-4, 2)))
+                    d = np.clip(x0 - tq * gq, lb, ub) - x0
+                    x0_arg = x32
+                    out.count("calls_with_single_precision_point")
+            sf = prepare_scalar_function(fun, x0_arg.copy(), jac=jac if mode == "callable" else "2-point", args=(), epsilon=1e-8,
                                          bounds=(lb, ub), finite_diff_rel_step=None)
             if rng.random() < 0.3:
                 # the solver may have set a scaling factor on the wrapper (gradient scaler): values and slopes are scaled alike
@@ -235,7 +250,7 @@ def run(spec):
                 out.count("calls_with_logging")
             try:
                 nested["on"] = True
-                ret = line_search(x0.copy(), f0, g0.copy(), d.copy(), lb, ub, above, max_user, is_boxed, sf, ftol, gtol, xtol, cap, ipr, lgr)
+                ret = line_search(x0_arg.copy(), f0, g0.copy(), d.copy(), lb, ub, above, max_user, is_boxed, sf, ftol, gtol, xtol, cap, ipr, lgr)
                 nested["on"] = False
                 if nested["runs"]:
                     out.count("calls_with_an_optimisation_nested_in_the_objective")
